@@ -56,13 +56,24 @@ pub fn compression(codec: &str) -> Compression {
 /// while a failing call does not shift the numbering of the values after it.
 #[derive(Clone, Copy, Debug, PartialEq, Eq, Hash, PartialOrd, Ord)]
 pub enum Op {
-	/// `serialize` of a 10-byte record
+	/// `serialize` of the small record, fields presented in schema order
 	Small,
-	/// `serialize` of a 72-byte record ("block-sized" for all block sizes but 64 Ki)
+	/// `serialize` of the big record ("block-sized" for all block sizes but 64 Ki)
 	Big,
-	/// `serialize` of the small record whose k-th nested `Serialize::serialize` call fails
-	/// (k = 0: before anything is emitted; k >= 2: after field `a` has been emitted)
+	/// the small record with the fields of every record level presented in *reverse* schema
+	/// order (n{q, p}, b, xs, a): every field but the last presented is put aside in a pooled
+	/// side buffer; the bytes are the same as for `Small`
+	SmallRev,
+	/// the big record presented as a, n{q, p}, b, xs: `a` goes straight to the block buffer,
+	/// `n` and `b` are put aside until `xs` arrives; the bytes are the same as for `Big`
+	BigMix,
+	/// `serialize` of the small record (schema order) whose k-th nested `Serialize::serialize`
+	/// call fails (k = 0: before anything is emitted; k >= 2: after field `a` has been emitted)
 	Fail(u8),
+	/// the same with the fields presented in reverse order (serde call indices: 0 root, 1 n,
+	/// 2 q, 3 p, 4 b, 5 xs, 6 "x", 7 "yz", 8 a): for k >= 4 the failure happens while fields put
+	/// aside in pooled side buffers are outstanding
+	FailRev(u8),
 	/// `serialize` of a record whose last field has the wrong type (genuine schema mismatch
 	/// after `a` and `xs` have been emitted)
 	BadType,
@@ -85,13 +96,16 @@ impl Op {
 		matches!(self, Op::IntoInner | Op::Drop)
 	}
 	pub fn failing(self) -> bool {
-		matches!(self, Op::Fail(_) | Op::BadType | Op::BadLen)
+		matches!(self, Op::Fail(_) | Op::FailRev(_) | Op::BadType | Op::BadLen)
 	}
 	pub fn name(self) -> String {
 		match self {
 			Op::Small => "ser_small".into(),
 			Op::Big => "ser_big".into(),
+			Op::SmallRev => "ser_small_rev".into(),
+			Op::BigMix => "ser_big_mix".into(),
 			Op::Fail(k) => format!("ser_fail_at({k})"),
+			Op::FailRev(k) => format!("ser_fail_rev({k})"),
 			Op::BadType => "ser_bad_type".into(),
 			Op::BadLen => "ser_bad_len".into(),
 			Op::Push1 => "push_serialized(1)".into(),
@@ -105,6 +119,8 @@ impl Op {
 		Some(match s {
 			"ser_small" => Op::Small,
 			"ser_big" => Op::Big,
+			"ser_small_rev" => Op::SmallRev,
+			"ser_big_mix" => Op::BigMix,
 			"ser_bad_type" => Op::BadType,
 			"ser_bad_len" => Op::BadLen,
 			"push_serialized(1)" => Op::Push1,
@@ -113,6 +129,9 @@ impl Op {
 			"into_inner" => Op::IntoInner,
 			"drop" => Op::Drop,
 			other => {
+				if let Some(k) = other.strip_prefix("ser_fail_rev(") {
+					return Some(Op::FailRev(k.strip_suffix(')')?.parse().ok()?));
+				}
 				let k = other.strip_prefix("ser_fail_at(")?.strip_suffix(')')?.parse().ok()?;
 				Op::Fail(k)
 			}
@@ -132,13 +151,28 @@ pub fn hist_parse(v: &serde_json::Value) -> Option<Vec<Op>> {
 /// `into_inner` / `drop`).
 pub fn nonterminal_ops(d: &Datum) -> Vec<Op> {
 	let mut v = vec![Op::Small, Op::Big];
+	if d.is_record {
+		v.extend([Op::SmallRev, Op::BigMix]);
+	}
 	v.extend((0..d.fail_points).map(Op::Fail));
+	if d.is_record {
+		v.extend((0..d.fail_points).map(Op::FailRev));
+	}
 	v.push(Op::BadType);
 	if d.is_record {
 		v.push(Op::BadLen);
 	}
 	v.extend([Op::Push1, Op::Push2, Op::Finish]);
 	v
+}
+
+/// A sub-alphabet for the deepest level of the enumerations: one failure point before and one
+/// after bytes were emitted per presentation order, the genuine mismatch after emitted bytes.
+pub fn reduced_ops(d: &Datum) -> Vec<Op> {
+	if !d.is_record {
+		return nonterminal_ops(d);
+	}
+	vec![Op::Small, Op::Big, Op::SmallRev, Op::BigMix, Op::Fail(0), Op::Fail(4), Op::FailRev(5), Op::FailRev(8), Op::BadLen, Op::Push1, Op::Push2, Op::Finish]
 }
 
 /// The datum schema and its fixed value shapes.
@@ -159,10 +193,11 @@ const BIG_X: &str = "0123456789012345678901234567890123456789";
 const BIG_B: &str = "abcdefghijklmnopqrstuvwxyz";
 
 impl Datum {
-	/// `record R { a: long, xs: array<string>, b: string }`
+	/// `record R { a: long, xs: array<string>, b: string, n: record N { p: long, q: string } }`
 	pub fn new() -> Datum {
-		let schema = RSchema::record("verif.R", vec![("a", RSchema::Long), ("xs", RSchema::array(RSchema::String)), ("b", RSchema::String)]);
-		Self::make("record", schema, true, 6)
+		let nested = RSchema::record("verif.N", vec![("p", RSchema::Long), ("q", RSchema::String)]);
+		let schema = RSchema::record("verif.R", vec![("a", RSchema::Long), ("xs", RSchema::array(RSchema::String)), ("b", RSchema::String), ("n", nested)]);
+		Self::make("record", schema, true, 9)
 	}
 	/// schema `null`: every datum is zero bytes long, a block is a count and nothing else
 	pub fn null() -> Datum {
@@ -183,21 +218,26 @@ impl Datum {
 		d.big_len = d.encode(&d.big(0)).len();
 		d
 	}
-	fn rec(&self, a: i64, xs: &[&str], b: &str) -> RValue {
+	fn rec(&self, a: i64, xs: &[&str], b: &str, p: i64, q: &str) -> RValue {
 		if !self.is_record {
 			return RValue::Null;
 		}
-		RValue::Record(vec![RValue::Long(a), RValue::Array(xs.iter().map(|s| RValue::Str(s.to_string())).collect()), RValue::Str(b.to_owned())])
+		RValue::Record(vec![
+			RValue::Long(a),
+			RValue::Array(xs.iter().map(|s| RValue::Str(s.to_string())).collect()),
+			RValue::Str(b.to_owned()),
+			RValue::Record(vec![RValue::Long(p), RValue::Str(q.to_owned())]),
+		])
 	}
 	/// `n` = number of datums accepted before this one (0..=63 keeps every length fixed)
 	pub fn small(&self, n: usize) -> RValue {
-		self.rec(n as i64 % 64, &["x", "yz"], "s")
+		self.rec(n as i64 % 64, &["x", "yz"], "s", 7, "q")
 	}
 	pub fn big(&self, n: usize) -> RValue {
-		self.rec(n as i64 % 64, &[BIG_X, "b"], BIG_B)
+		self.rec(n as i64 % 64, &[BIG_X, "b"], BIG_B, 8192, "nested")
 	}
 	pub fn pushed(&self, n: usize) -> RValue {
-		self.rec(-1 - (n as i64 % 64), &["p"], "")
+		self.rec(-1 - (n as i64 % 64), &["p"], "", 0, "")
 	}
 	pub fn encode(&self, v: &RValue) -> Vec<u8> {
 		let env = Env::new(&self.schema);
@@ -206,6 +246,28 @@ impl Datum {
 	pub fn pres(&self, v: &RValue) -> Pres {
 		let env = Env::new(&self.schema);
 		gen::pres_of(v, &self.schema, &env, gen::UnionStyle::ByName, gen::RecordStyle::Struct)
+	}
+	/// the same value with the fields of every record level presented in reverse schema order
+	pub fn pres_rev(&self, v: &RValue) -> Pres {
+		fn rev(p: Pres) -> Pres {
+			match p {
+				Pres::Struct { name, fields } => Pres::Struct { name, fields: fields.into_iter().rev().map(|(k, v)| (k, rev(v))).collect() },
+				other => other,
+			}
+		}
+		rev(self.pres(v))
+	}
+	/// first field in place, the remaining fields in reverse order, nested records reversed
+	pub fn pres_mix(&self, v: &RValue) -> Pres {
+		match self.pres_rev(v) {
+			Pres::Struct { name, mut fields } => {
+				if let Some(first) = fields.pop() {
+					fields.insert(0, first);
+				}
+				Pres::Struct { name, fields }
+			}
+			other => other,
+		}
 	}
 	/// the block sizes of DESIGN §4 C15: 0, 1, |datum|, |datum|+1, |big|+1, 64 Ki
 	pub fn block_sizes(&self) -> Vec<u32> {
@@ -226,10 +288,16 @@ pub struct CallRecord {
 	pub hook: Option<(u64, bool, usize)>,
 	/// the values this call handed to the writer (accepted iff `result` is Ok)
 	pub values: Vec<RValue>,
+	/// not an operation of the history: the executor dropped the writer (under catch_unwind)
+	/// after an operation panicked, so that what the writer still flushes can be inspected
+	pub drop_after_panic: bool,
 }
 
 impl CallRecord {
 	pub fn op_name(&self) -> String {
+		if self.drop_after_panic {
+			return "drop(after the panic)".to_owned();
+		}
 		self.op.map_or("build".to_owned(), |o| o.name())
 	}
 }
@@ -244,21 +312,30 @@ pub fn drop_quietly<T>(t: T) -> Result<(), String> {
 /// build (index 0) and after every operation (index i+1) and returns `false` to stop the
 /// history there. `dispose()` is called before a still-living writer is dropped by the executor
 /// itself (end of a history without terminal operation, or early stop): that drop is not part
-/// of the history.
-pub fn run_history<W: Write>(d: &Datum, codec: &str, block_size: u32, sink: W, ops: &[Op], after: &mut dyn FnMut(usize, &CallRecord) -> bool, dispose: &mut dyn FnMut()) {
+/// of the history. After an operation that panicked the writer is dropped under catch_unwind and
+/// reported as a record with `drop_after_panic` set. Returns the pool shape of the serializer
+/// configuration after the writer is gone.
+pub fn run_history<W: Write>(d: &Datum, codec: &str, block_size: u32, sink: W, ops: &[Op], after: &mut dyn FnMut(usize, &CallRecord) -> bool, dispose: &mut dyn FnMut()) -> PoolShape {
 	let mut config = SerializerConfig::new(&d.crate_schema);
+	run_history_on(d, &mut config, codec, block_size, sink, ops, after, dispose);
+	// the writer is gone: the serializer configuration can be looked at (hook H4)
+	let (bufs, supers) = config.verif_pools();
+	PoolShape { buffers: bufs.iter().map(|b| b.0).collect(), super_buffers: supers.iter().map(|b| b.0).collect() }
+}
+
+#[allow(clippy::too_many_arguments)]
+fn run_history_on<'c, 's, W: Write>(d: &Datum, config: &'c mut SerializerConfig<'s>, codec: &str, block_size: u32, sink: W, ops: &[Op], after: &mut dyn FnMut(usize, &CallRecord) -> bool, dispose: &mut dyn FnMut()) {
 	let mut accepted = 0usize;
-	let mut writer: Option<Writer<'_, '_, W>> = None;
+	let mut writer: Option<Writer<'c, 's, W>> = None;
 	let built = {
 		let slot = &mut writer;
-		let config = &mut config;
 		guarded(move || {
 			let w = WriterBuilder::new(config).compression(compression(codec)).approx_block_size(block_size).sync_marker(SYNC).build(sink).map_err(|e| e.to_string())?;
 			*slot = Some(w);
 			Ok(())
 		})
 	};
-	let rec = CallRecord { op: None, hook: writer.as_ref().map(|w| w.verif_state()), result: built, values: vec![] };
+	let rec = CallRecord { op: None, hook: writer.as_ref().map(|w| w.verif_state()), result: built, values: vec![], drop_after_panic: false };
 	let go = after(0, &rec);
 	if !go || writer.is_none() {
 		if let Some(w) = writer.take() {
@@ -270,20 +347,24 @@ pub fn run_history<W: Write>(d: &Datum, codec: &str, block_size: u32, sink: W, o
 	for (i, &op) in ops.iter().enumerate() {
 		let mut values: Vec<RValue> = Vec::new();
 		let result: Out<()> = match op {
-			Op::Small | Op::Big => {
-				let v = if op == Op::Small { d.small(accepted) } else { d.big(accepted) };
-				let p = d.pres(&v);
+			Op::Small | Op::Big | Op::SmallRev | Op::BigMix => {
+				let v = if matches!(op, Op::Small | Op::SmallRev) { d.small(accepted) } else { d.big(accepted) };
+				let p = match op {
+					Op::SmallRev => d.pres_rev(&v),
+					Op::BigMix => d.pres_mix(&v),
+					_ => d.pres(&v),
+				};
 				values.push(v);
 				let w = writer.as_mut().unwrap();
 				guarded(|| w.serialize(&p).map_err(|e| e.to_string()))
 			}
-			Op::Fail(k) => {
+			Op::Fail(k) | Op::FailRev(k) => {
 				let v = d.small(accepted);
-				let p = d.pres(&v);
+				let p = if matches!(op, Op::FailRev(_)) { d.pres_rev(&v) } else { d.pres(&v) };
 				values.push(v);
 				let w = writer.as_mut().unwrap();
 				let (r, calls) = pres::with_failure(Some(k as usize), || guarded(|| w.serialize(&p).map_err(|e| e.to_string())));
-				if calls <= k as usize {
+				if !r.is_panic() && calls <= k as usize {
 					machinery(&format!("failure point {k} never reached ({calls} serialize calls)"));
 				}
 				r
@@ -337,8 +418,21 @@ pub fn run_history<W: Write>(d: &Datum, codec: &str, block_size: u32, sink: W, o
 			accepted += values.len();
 		}
 		let alive = writer.is_some() && !result.is_panic();
-		let rec = CallRecord { op: Some(op), hook: if alive { writer.as_ref().map(|w| w.verif_state()) } else { None }, result, values };
+		let panicked = result.is_panic();
+		let rec = CallRecord { op: Some(op), hook: if alive { writer.as_ref().map(|w| w.verif_state()) } else { None }, result, values, drop_after_panic: false };
 		let go = after(i + 1, &rec);
+		if panicked {
+			// the panic bypassed the writer's own error handling: drop the writer under
+			// catch_unwind and let the caller inspect what it still flushed
+			if let Some(w) = writer.take() {
+				let r = match drop_quietly(w) {
+					Ok(()) => Out::Ok(()),
+					Err(m) => Out::Panic(m),
+				};
+				let rec = CallRecord { op: Some(Op::Drop), hook: None, result: r, values: vec![], drop_after_panic: true };
+				after(i + 2, &rec);
+			}
+		}
 		if !go || !alive {
 			break;
 		}
@@ -347,6 +441,20 @@ pub fn run_history<W: Write>(d: &Datum, codec: &str, block_size: u32, sink: W, o
 	if let Some(w) = rest {
 		dispose();
 		let _ = drop_quietly(w);
+	}
+}
+
+/// Lengths of the buffers pooled in the `SerializerConfig` once the writer is gone.
+#[derive(Clone, Debug, Default, PartialEq, Eq, Hash)]
+pub struct PoolShape {
+	pub buffers: Vec<usize>,
+	pub super_buffers: Vec<usize>,
+}
+
+impl PoolShape {
+	/// lengths of the pooled buffers that are not empty (none, in a quiescent configuration)
+	pub fn dirty(&self) -> Vec<usize> {
+		self.buffers.iter().chain(&self.super_buffers).copied().filter(|&l| l > 0).collect()
 	}
 }
 
